@@ -24,6 +24,12 @@ def build(u):
             "fn dispatch_one__notify(&self, plugin: &Plugin, params: &Value, method: &str, Tracked(d): Tracked<&mut Disp>)",
             note="slice dispatch_one#notify: from `if let Some(cb) = &self.wildcard_subscription` to the `match self.subscriptions.get(method)`; "
                  "self is an env mirror with the real field names; plugin, params, method are declared in the unit")
+    u.slice(m, f, "cln_plugin::PluginDriver::dispatch_one#request_lookup",
+            r"first:^let method = request", r"^let params = request[\s\S]*\.clone\(\);",
+            "fn dispatch_one__request_lookup<'a>(&'a self, request: &'a Value) -> (r: anyhow::Result<(&'a F, Value)>)",
+            tail="Ok((callback, params))",
+            note="slice dispatch_one#request_lookup: from `let method = request.get(\"method\")..` to `let params = request.get(\"params\")...clone();` of the "
+                 "CustomRequest arm; self is the env mirror (rpcmethods / setconfig_callback are the real field names), request: &serde_json::Value is declared in the unit")
     u.raw("}\n")
     u.slice(m, f, "cln_plugin::PluginDriver::dispatch_one#request_spawn",
             r"^let plugin = plugin\.clone\(\);", r"^tokio::spawn\(async move \{\s*match call\.await",
